@@ -204,6 +204,8 @@ func specSort(name string) (Sort, bool) {
 		return SStr, true
 	case "GSeq":
 		return Sort("GSeq"), true
+	case "GBytes":
+		return Sort("GBytes"), true
 	case "GSet":
 		return ArrSort(SInt, SBool), true
 	case "IntArr":
@@ -213,6 +215,18 @@ func specSort(name string) (Sort, bool) {
 }
 
 func (e *SpecEnv) lookupType(name string) types.Type {
+	if strings.HasPrefix(name, "[]") {
+		if t := e.lookupType(name[2:]); t != nil {
+			return types.NewSlice(t)
+		}
+		return nil
+	}
+	if strings.HasPrefix(name, "*[]") || strings.HasPrefix(name, "**") {
+		if t := e.lookupType(name[1:]); t != nil {
+			return types.NewPointer(t)
+		}
+		return nil
+	}
 	ptr := false
 	if strings.HasPrefix(name, "*") {
 		ptr = true
@@ -444,7 +458,14 @@ func (e *SpecEnv) Eval(x SExpr) Val {
 					_, isLocal = e.f.lookupName(id.Name, e.at, e.atI)
 				}
 				if !isLocal {
-					for _, imp := range e.pkg.Imports() {
+					cands := append([]*types.Package{}, e.pkg.Imports()...)
+					for _, p := range vc.eng.prog.AllPackages() {
+						// fallback: a standard-library package named by its full path
+						if p.Pkg.Path() == id.Name {
+							cands = append(cands, p.Pkg)
+						}
+					}
+					for _, imp := range cands {
 						if imp.Name() == id.Name {
 							if o := imp.Scope().Lookup(n.F); o != nil {
 								switch c := o.(type) {
@@ -752,6 +773,14 @@ func (e *SpecEnv) call(n SCall) Val {
 			}
 		}
 		e.fail("allocatedAt: loop %d has no explicit frame (loop modifies) or is not active here", ord)
+	case "deref":
+		// deref(p): the value stored at pointer p (current state)
+		pv := e.Eval(n.Args[0])
+		et := derefType(pv.Typ)
+		if pv.K != KPtr || et == nil {
+			e.fail("deref() needs a typed pointer")
+		}
+		return vc.load(e.cur, pv, et)
 	case "ptr":
 		// ptr(x, "pkg.Type"): view the reference x as a *pkg.Type
 		xv := e.Eval(n.Args[0])
@@ -771,7 +800,10 @@ func (e *SpecEnv) call(n SCall) Val {
 		if sv.K != KSlice {
 			e.fail("inSlice() needs a slice")
 		}
-		return Val{K: KBool, T: Select(vc.sliceSet(sv), e.term(xv))}
+		if kindOf(sv.Typ.Underlying().(*types.Slice).Elem()) != KPtr {
+			e.fail("inSlice() needs a slice of pointers")
+		}
+		return Val{K: KBool, T: Select(vc.sliceSet(e.cur, sv), e.term(xv))}
 	case "offset", "arr":
 		v := e.Eval(n.Args[0])
 		if v.K != KSlice {
